@@ -6,32 +6,60 @@ import vlib
 from vlib import Check, ToolError, log
 
 
+def _meta_of(cases):
+    """the META line of a TLC output (constants of a mirrored enumeration), if any"""
+    try:
+        with open(cases, "rb") as f:
+            for i, line in enumerate(f):
+                if line.startswith(b'<<"META"'):
+                    import re
+                    body = line.decode()[len('<<"META", "'):].rstrip()[:-3]
+                    return json.loads(re.sub(r"\\(.)", r"\1", body))
+                if i > 50:
+                    break
+    except OSError:
+        pass
+    return None
+
+
+def _attach_replay(r, binname, mode, args, cases):
+    meta = _meta_of(cases)
+    for f in r["failures"]:
+        f["replay"] = {"bin": binname, "mode": mode, "args": args, "meta": meta}
+    return r
+
+
 def _fe(mode, cases, name, extra=None):
     res = os.path.join(vlib.OUT, name + ".result.json")
     vlib.run_harness("fe", [mode, cases, res] + (extra or []))
-    return vlib.harness_result(res)
+    return _attach_replay(vlib.harness_result(res), "fe", mode, extra or [], cases)
 
 
 def replay(prop, path):
-    """Re-run one recorded violation."""
+    """Re-run one recorded violation against /repo's current working tree."""
     with open(path) as f:
         rec = json.load(f)
-    mode = rec.get("mode")
-    if not mode:
-        raise ToolError("replay file has no mode")
+    rp = rec.get("replay")
+    if not rp or rec.get("case") is None:
+        raise ToolError("replay file carries no replayable case (what=%s)" % rec.get("what"))
     vlib.build_harness()
+    args = list(rp.get("args", []))
+    for i, a in enumerate(args):
+        if a.startswith("exe="):
+            args[i] = "exe=" + vlib.build_server("repo-verif" in a)
     tmp = os.path.join(vlib.OUT, "replay_case.ndjson")
     with open(tmp, "w") as fo:
+        if rp.get("meta"):
+            fo.write(json.dumps({"tag": "META", "case": rp["meta"]}) + "\n")
         fo.write(json.dumps({"tag": rec.get("tag", "CASE"), "case": rec["case"]}) + "\n")
-        if rec.get("meta"):
-            fo.write(json.dumps({"tag": "META", "case": rec["meta"]}) + "\n")
-    binname = "srv" if mode.startswith("srv:") else "fe"
     res = os.path.join(vlib.OUT, "replay_case.result.json")
-    vlib.run_harness(binname, [mode.split(":")[-1], tmp, res])
+    vlib.run_harness(rp["bin"], [rp["mode"], tmp, res] + args)
     r = vlib.harness_result(res)
-    for f in r["failures"]:
+    want = rec.get("what")
+    hits = [f for f in r["failures"] if f["what"] == want] or r["failures"]
+    for f in hits[:5]:
         log("  %s %s %s" % (f["what"], f.get("site"), json.dumps(f["detail"])[:1500]))
-    if r["nfail"]:
+    if hits:
         log("VIOLATION property=%s replay=%s" % (prop, path))
         raise SystemExit(1)
     log("replay: no failure")
@@ -155,7 +183,9 @@ def c07(tier):
 def _srv(mode, cases, name, exe, extra=None, timeout=3600):
     res = os.path.join(vlib.OUT, name + ".result.json")
     vlib.run_harness("srv", [mode, cases, res, "exe=" + exe, "seed=%d" % vlib.seed(), "max_fail=60"] + (extra or []), timeout=timeout)
-    return _tag_mode(vlib.harness_result(res), "srv:" + mode)
+    keep = [a for a in (extra or []) if not a.startswith(("stride=", "offset=", "trace_out="))]
+    return _attach_replay(_tag_mode(vlib.harness_result(res), "srv:" + mode), "srv", mode,
+                          ["exe=" + exe, "seed=%d" % vlib.seed()] + keep, cases)
 
 
 def _trace_cfg(trace_path, name, diagcap=True):
